@@ -16,6 +16,8 @@ import (
 	"net/http"
 	"net/http/httptest"
 	"net/url"
+	"os"
+	"path/filepath"
 	"strings"
 	"time"
 
@@ -368,8 +370,96 @@ func runC15(r *Run) {
 			}
 		}
 	}
+	// history and time: a token that was accepted is refused once it has expired (the expiry leeway
+	// of the library is 60 s): accepted now, refused a few seconds later, whatever was answered before
+	for _, sign := range []bool{true, false} {
+		setMode(sign)
+		tok := craft(encKey, signKey, sign, jwt.Claims{Subject: "alice", Issuer: "rdpgw", Expiry: jwt.NewNumericDate(time.Now().Add(-57 * time.Second))}, jose.A128CBC_HS256)
+		ask := func() (int, string) {
+			rec := httptest.NewRecorder()
+			web.TokenInfo(rec, httptest.NewRequest("GET", "http://gw/tokeninfo?access_token="+url.QueryEscape(tok), nil))
+			return rec.Code, rec.Body.String()
+		}
+		st1, _ := ask()
+		ask()
+		time.Sleep(4500 * time.Millisecond)
+		st2, body2 := ask()
+		r.Count(fmt.Sprintf("tokeninfo-history:%v", sign))
+		if st1 == 200 && (st2 == 200 || strings.Contains(body2, "alice")) {
+			r.Violation("c15-accepts", "claims returned for a token that does not decrypt/verify under the configured keys, or is expired, or names another issuer",
+				fmt.Sprintf("signing mode %v: a token expiring 57 s ago (inside the 60 s leeway) was answered %d; the same token 4.5 s later (expired beyond the leeway) was answered %d %q\n", sign, st1, st2, body2))
+		}
+		if !sign {
+			break // once is enough for the encrypt-only mode in the quick tier
+		}
+	}
+	setMode(true)
+	c15Binary(r, craft)
 	r.extra["model_disagreements"] = drift
 	if drift > 0 && !r.HasViolation() {
 		r.Unproven(fmt.Sprintf("correspondence UserToken.verify / tokenInfo = UserInfo / TokenInfo broke on %d well-formed cases", drift), first)
+	}
+}
+
+// c15Binary: the configured keys as the real process uses them. The gateway is started with a user
+// token encryption key and a signing key that is absent, too short, or 32 characters; tokens made by
+// the harness under those keys are presented to /tokeninfo. An encrypt-only token is acceptable only
+// when no signing key is configured; a signed-and-encrypted one only under the configured 32-character key.
+func c15Binary(r *Run, craft func(ek, sk []byte, sign bool, claims jwt.Claims, alg jose.ContentEncryption) string) {
+	if _, err := os.Stat(gwBinaryPath()); err != nil {
+		r.Note("gateway binary unavailable: binary tier skipped")
+		return
+	}
+	r.TierRan("binary")
+	dir := filepath.Join(verifRoot, "work", fmt.Sprintf("c15-%d", os.Getpid()))
+	os.MkdirAll(dir, 0o755)
+	defer os.RemoveAll(dir)
+	idp := newFakeIdP()
+	defer idp.close()
+	enc := "user-token-encryption-key-32-ch!"
+	for _, sk := range []string{"", "short-signing-key-21ch", "user-token-signing-key-32-chars!"} {
+		port := freePort()
+		ta := true
+		y := &gwYaml{port: port, tlsOn: false, auth: []string{"openid"}, hosts: []string{"10.0.0.1:3389"}, idpURL: idp.srv.URL, tokenAuth: &ta,
+			keys: map[string]string{"security.usertokenencryptionkey": enc}, extraSec: []string{"enableusertoken: true"}}
+		if sk != "" {
+			y.keys["security.usertokensigningkey"] = sk
+		}
+		p := startBinary(dir, y.render(), nil, port, false)
+		if !p.running() {
+			r.Note("binary did not start for the user-token configuration: " + tail(p.stderr.String(), 300))
+			p.stop()
+			continue
+		}
+		std := jwt.Claims{Subject: "alice", Issuer: "rdpgw", Expiry: jwt.NewNumericDate(time.Now().Add(5 * time.Minute))}
+		toks := map[string]string{
+			"encrypt-only":             craft([]byte(enc), nil, false, std, jose.A128CBC_HS256),
+			"signed under another key": craft([]byte(enc), []byte("some-other-signing-key-32-chars!"), true, std, jose.A128CBC_HS256),
+		}
+		if len(sk) == 32 {
+			toks["signed under the configured key"] = craft([]byte(enc), []byte(sk), true, std, jose.A128CBC_HS256)
+		}
+		for name, tok := range toks {
+			if tok == "" {
+				continue
+			}
+			resp, err := http.Get(fmt.Sprintf("http://127.0.0.1:%d/tokeninfo?access_token=%s", port, url.QueryEscape(tok)))
+			if err != nil {
+				r.Inconclusive()
+				continue
+			}
+			b, _ := io.ReadAll(resp.Body)
+			resp.Body.Close()
+			want := (name == "encrypt-only" && sk == "") || name == "signed under the configured key"
+			r.Count(fmt.Sprintf("binary:%d:%s", len(sk), name))
+			r.Dist("binary:signing-key-len-" + fmt.Sprint(len(sk)))
+			rep := fmt.Sprintf("real binary, enableusertoken, usertokenencryptionkey of 32 characters, usertokensigningkey of %d characters; token: %s → %d %q\n", len(sk), name, resp.StatusCode, b)
+			if resp.StatusCode == 200 && !want {
+				r.Violation("c15-accepts", "claims returned for a token that does not decrypt/verify under the configured keys, or is expired, or names another issuer", rep)
+			} else if resp.StatusCode != 200 && want {
+				r.Violation("c15-fresh", "a token made under the configured keys is refused by the running gateway", rep)
+			}
+		}
+		p.stop()
 	}
 }
